@@ -203,9 +203,11 @@ pub fn gen(c: &Chain, cfg: &Cfg, m: &Menu, rng: &mut Rng, kind: &str) -> Option<
         "rew_swapdenom" => exec("owner", "reward", json!({"k": "update_swap_denom", "swap_denom": *rng.pick(&["usei", "ufor", "kusd"]), "is_add": rng.chance(2, 3)}), json!([])),
         "rew_swap" => exec("dispatcher", "reward", json!({"k": "swap_to_reward_denom"}), json!([])),
         "disp_swapdenom" => exec("owner", "dispatcher", json!({"k": "update_swap_denom", "swap_denom": *rng.pick(&["usei", "ufor", "kusd"]), "is_add": rng.chance(3, 4)}), json!([])),
+        "fund_rebond" => json!({"k": "fund", "to": "dispatcher", "d": "usei", "a": m.amax / 2 + rng.below(m.amax)}),
         "bond_rewards" => {
             let have = c.bal("dispatcher", "usei") as u64;
-            exec("dispatcher", "hub", json!({"k": "bond_rewards"}), json!([{"d": "usei", "a": amount(rng, have, m.amax).min(have.max(1))}]))
+            let a = if rng.chance(2, 3) { have.max(1) } else { amount(rng, have, m.amax).min(have.max(1)) };
+            exec("dispatcher", "hub", json!({"k": "bond_rewards"}), json!([{"d": "usei", "a": a}]))
         }
         "index_update" => exec("dispatcher", "reward", json!({"k": "update_global_index"}), json!([])),
         "mint_b" => exec("hub", "bsei", json!({"k": "mint", "recipient": u, "amount": 1 + rng.below(m.amax)}), json!([])),
